@@ -52,16 +52,14 @@ impl Dialect for HidingDialect {
         self.inner.gc_candidate(a, op)
     }
     fn op(&self, a: &mut Allocator, o: NodePtr, args: NodePtr, max_cost: Cost, ext: OperatorSet) -> Response {
+        // a node that predates the secp softfork knows no multi-byte opcode at
+        // all: every 4-byte operator is an unknown operator to it
         if a.atom_len(o) == 4 {
-            let b = a.atom(o);
-            let b = b.as_ref();
-            if b == [0x13, 0xd6, 0x1f, 0x00] || b == [0x1c, 0x3a, 0x8f, 0x00] {
-                return if self.flags.contains(ClvmFlags::NO_UNKNOWN_OPS) {
-                    Err(EvalErr::Unimplemented(o))
-                } else {
-                    op_unknown(a, o, args, max_cost, self.inner.flags())
-                };
-            }
+            return if self.flags.contains(ClvmFlags::NO_UNKNOWN_OPS) {
+                Err(EvalErr::Unimplemented(o))
+            } else {
+                op_unknown(a, o, args, max_cost, self.inner.flags())
+            };
         }
         self.inner.op(a, o, args, max_cost, ext)
     }
@@ -177,12 +175,17 @@ pub fn run_c08(ctx: &mut Ctx) {
     {
         // valid 4-byte secp calls
         let p = crate::util::points();
-        for (code, t) in [("0x13d61f00", &p.k1[0]), ("0x1c3a8f00", &p.r1[0])] {
-            let pk = f.atom(&t.0);
-            let m = f.atom(&t.1);
-            let s = f.atom(&t.2);
-            let txt = format!("({code} (q . $pk) (q . $m) (q . $s))");
-            directed.push(sexp::parse(&mut f, &txt, &[("pk", pk), ("m", m), ("s", s)]));
+        // ... and the whole neighbourhood of the two assigned opcodes (other
+        // cost-function bits, ignored bits, adjacent multipliers), which both
+        // kinds of node must treat as plain unknown operators
+        for (prefix, t) in [("13d61f", &p.k1[0]), ("1c3a8f", &p.r1[0]), ("13d61e", &p.k1[1]), ("1c3a90", &p.r1[1])] {
+            for last in [0x00u8, 0x01, 0x3f, 0x40, 0x41, 0x80, 0xbf, 0xc0, 0xff] {
+                let pk = f.atom(&t.0);
+                let m = f.atom(&t.1);
+                let s = f.atom(&t.2);
+                let txt = format!("(0x{prefix}{last:02x} (q . $pk) (q . $m) (q . $s))");
+                directed.push(sexp::parse(&mut f, &txt, &[("pk", pk), ("m", m), ("s", s)]));
+            }
         }
     }
     let mut id = 0;
@@ -196,9 +199,10 @@ pub fn run_c08(ctx: &mut Ctx) {
             }
             let mut r = ctx.rng(cid);
             check08(ctx, &mut r, &f, *p, env, fl, 0);
+            check08(ctx, &mut r, &f, *p, env, fl, 11_000_000_000);
         }
     }
-    let n = ctx.n(200_000, 30_000_000);
+    let n = ctx.n(1_500_000, 100_000_000);
     random_cases!(ctx, n, |r, _i| {
         let flags = gen_flags(&mut r, ClvmFlags::all() & !ClvmFlags::NEW_COST_MODEL & !ClvmFlags::NO_UNKNOWN_OPS);
         let cfg = softfork_cfg(&mut r, flags);
